@@ -57,3 +57,10 @@ def _v7(repo, mod):
 def _v8(repo, mod):
     fn = repo.func(GEN, "GeneratorProvider.clear_generator_cache")
     return insert_before(mod, fn.body[-1], "_unused = 0")
+
+
+@variant("C26", "accessor-returns-defensive-copy", GEN, "C26.live-bucket", "get_for_type hands out a copy while _drop_generator discards through it")
+def _v30(repo, mod):
+    fn = repo.func(GEN, "GeneratorProvider.get_for_type")
+    r = find_stmt(fn, lambda s: isinstance(s, ast.Return))
+    return replace_node(mod, r.value, "OrderedSet(self._generators.get(proper_type, ()))")
